@@ -260,6 +260,7 @@ struct PairStats {
     nontrivial: Vec<u64>,
     shortened: u64,
     pairs: u64,
+    near: u64,
 }
 
 fn common_prefix(a: &[u8], b: &[u8]) -> usize {
@@ -355,6 +356,24 @@ fn check_triple<D: Dom>(r: &mut Rec, st: &mut PairStats) -> Result<(), Failure> 
     if r.u8() % 8 == 0 {
         b = a.clone();
     }
+    // integer-like domains: c becomes a near relative of a (one or two bits of the encoding
+    // flipped), so that pairs tie on most bytes and the deciding byte is anywhere
+    let mut c = c;
+    if matches!(D::NAME, "u8" | "u16" | "u32" | "u64" | "u128" | "i8" | "i16" | "i32" | "i64" | "i128" | "[u16;3]" | "&[u8;3]") {
+        let m = r.u8();
+        if m >= 96 {
+            let mut e = D::enc(&a);
+            let bits = e.len() * 8;
+            let bit = (r.u8() as usize) % bits;
+            e[bit / 8] ^= 1 << (bit % 8);
+            if m >= 200 {
+                let bit = (r.u8() as usize) % bits;
+                e[bit / 8] ^= 1 << (bit % 8);
+            }
+            c = D::dec(&e);
+            st.near += 1;
+        }
+    }
     check_pair::<D>(&a, &b, st)?;
     check_pair::<D>(&b, &c, st)?;
     check_pair::<D>(&a, &c, st)?;
@@ -425,7 +444,7 @@ impl Check for C15 {
         let mut st = PairStats::default();
         let mut names = vec![];
         for rec in &tape.recs {
-            let mut r = Rec::new(rec);
+            let mut r = Rec::new_extended(rec);
             let d = r.weighted(&DOM_WEIGHT);
             if want_sample && names.len() < 6 {
                 names.push(dom_name(d));
@@ -434,6 +453,7 @@ impl Check for C15 {
         }
         let mut out = CaseOut { evals: st.pairs.max(1), ..Default::default() };
         out.class_n("pairs checked", st.pairs);
+        out.class_n("integer triples with a near relative (1-2 bits of the encoding flipped)", st.near);
         out.class_n("separators shorter than the left key", st.shortened);
         out.nontrivial = st.nontrivial;
         if want_sample {
@@ -471,7 +491,7 @@ impl Check for C15 {
             .recs
             .iter()
             .map(|rec| {
-                let mut r = Rec::new(rec);
+                let mut r = Rec::new_extended(rec);
                 let d = r.weighted(&DOM_WEIGHT);
                 fn show<D: Dom>(r: &mut Rec) -> String {
                     let a = D::generate(r);
